@@ -128,7 +128,7 @@ def _int_configs():
 
 
 def _packed_configs():
-    for pc in "bBhHiIqQ":
+    for pc in "bBhHiIqQefd":
         for endian in ORDER:
             yield {"size": struct.calcsize(pc), "packchar": pc, "endian": endian}
 
@@ -152,7 +152,21 @@ def _is_signed(cfg: dict) -> bool:
     return cfg["signed"] if "signed" in cfg else cfg["packchar"].islower()
 
 
-def _values(cfg: dict) -> list[int]:
+class _F(float):
+    """A float that compares by its IEEE bit pattern (so that -0.0 != 0.0 and nan == nan in the fold's comparisons)."""
+
+    def __eq__(self, other):
+        return isinstance(other, float) and struct.pack(">d", self) == struct.pack(">d", other)
+
+    def __ne__(self, other):
+        return not self.__eq__(other)
+
+    __hash__ = float.__hash__
+
+
+def _values(cfg: dict) -> list:
+    if cfg.get("packchar") in ("e", "f", "d"):
+        return [_F(1.5), _F(-2.0), _F(-0.0), _F(0.25), _F(-0.0)]
     bits = cfg["size"] * 8
     if _is_signed(cfg):
         return [1, -1, 0x5A, -(1 << (bits - 1)), (1 << (bits - 1)) - 1, -2]
@@ -207,7 +221,8 @@ def fold_family(repo: Repo, family: str) -> dict | None:
                 r = fam.run(cls, "_read_array", st, fam.env["EOF"])
                 check("_read_array", "count EOF, trailing partial element (bytes consumed must not be dropped)", r[0], "raise")
             # ---- _read_0
-            nz = [v for v in vals if v != 0]
+            is_float = cfg.get("packchar") in ("e", "f", "d")
+            nz = [v for v in vals if (float(v) != 0.0 if is_float else v != 0)]  # -0.0 is a zero element too: it terminates x[]
             zero = _ref_encode(cfg, 0)
             st = Stream(b"".join(_ref_encode(cfg, v) for v in nz) + zero + enc[0])
             r = fam.run(cls, "_read_0", st)
@@ -221,7 +236,7 @@ def fold_family(repo: Repo, family: str) -> dict | None:
                 r = fam.run(cls, "_write", st, v)
                 check("_write", f"value {v}", (r, bytes(st.written)), (("ok", size), e))
             bits = size * 8
-            for v in ((1 << bits), -(1 << bits) - 1, (1 << (bits - 1)) if _is_signed(cfg) else -1):
+            for v in () if is_float else ((1 << bits), -(1 << bits) - 1, (1 << (bits - 1)) if _is_signed(cfg) else -1):
                 st = Stream()
                 r = fam.run(cls, "_write", st, v)
                 check("_write", f"out-of-range value {v} (must be refused, not truncated)", (r[0], bytes(st.written)), ("raise", b""))
@@ -231,6 +246,14 @@ def fold_family(repo: Repo, family: str) -> dict | None:
             st = Stream()
             r = fam.run(cls, "_write_array", st, [])
             check("_write_array", "empty", (r, bytes(st.written)), (("ok", 0), b""))
+            zeros = [_F(-0.0), _F(0.0), _F(-0.0)] if is_float else [0, 0, 0]
+            zblob = b"".join(_ref_encode(cfg, v) for v in zeros)
+            st = Stream()
+            r = fam.run(cls, "_write_array", st, list(zeros))
+            check("_write_array", "all elements zero (of either sign)", (r, bytes(st.written)), (("ok", len(zblob)), zblob))
+            st = Stream(zblob)
+            r = fam.run(cls, "_read_array", st, len(zeros))
+            check("_read_array", "all elements zero (of either sign)", (r[0], list(r[1]) if r[0] == "ok" else None), ("ok", zeros))
             st = Stream()
             r = fam.run(cls, "_write_0", st, list(nz))
             want = b"".join(_ref_encode(cfg, v) for v in nz) + zero
